@@ -46,8 +46,11 @@ def body(c):
         "(factor 10 on the bound for the calibration's own rounding)",
         "apply_m / solve are observed through the forward model (backward "
         "error in measurement space, factor 100 for the calibration's own "
-        "conditioning); for row-scaled receivers the solve's success is not "
-        "demanded, only the accuracy of apply when it succeeded",
+        "conditioning); with row-scaled receivers asserted only for exactly "
+        "determined set-ups, over-determined ones are counted "
+        "(applym_scaled_*_inaccurate) but not asserted",
+        "duplicated equations in solves are not asserted (counted as "
+        "solve_dup_undetected)",
         "nothing is asserted about numerical rank; cases whose unscaled "
         "system has a condition estimate above 1e6 are not asserted",
         "singular a matrix in vnacal_new_add_*: refusal with EDOM at the add "
